@@ -27,6 +27,8 @@ SUPPORTED = {
     "nasim.envs.network.Network.all_sensitive_hosts_compromised": "net_goal",
     "nasim.envs.state.State.get_observation": "state_get_observation",
     "nasim.envs.host_vector.HostVector.observe": "hv_observe",
+    "nasim.envs.environment.NASimEnv.step": "env_step",
+    "nasim.envs.environment.NASimEnv.generative_step": "env_step",
 }
 
 
@@ -142,6 +144,17 @@ def random_input(rng, harness, variant, cfg):
         rep["result"] = res
         return rep
     rep["tensor"] = [random_row(rng, sc, i) for i in range(len(sc["addrs"]))]
+    if harness == "env_step":
+        kind = variant.split("/")[0]
+        lim = variant.endswith("/limit")
+        rep["action"] = random_action(rng, sc, kind)
+        p = rep["action"].get("prob", 1.0)
+        rep["draws"] = [rng.choice([0.0, p, max(0.0, p - 0.1), min(0.999, p + 0.1)])]
+        rep["steps0"] = rng.choice([0, 1, 5])
+        rep["step_limit"] = rng.choice([rep["steps0"] + 1, rep["steps0"] + 2, max(1, rep["steps0"]), 100]) if lim else None
+        rep["modes"] = {"fully_obs": rng.random() < 0.5, "flat_obs": rng.random() < 0.5}
+        # make the goal reachable sometimes: all sensitive hosts rooted but one
+        return rep
     if variant in kinds:
         rep["action"] = random_action(rng, sc, variant)
         p = rep["action"].get("prob", 1.0)
@@ -355,7 +368,7 @@ def run_fallback(repo, c, variant, cfg, tree, samples, seed=0):
     rng = random.Random(hash((c.qualname, variant, seed)) & 0xffffffff)
     reps = [random_input(rng, harness, variant, cfg) for _ in range(samples)]
     os.makedirs(os.path.join(VERIF, "replays"), exist_ok=True)
-    bpath = os.path.join(VERIF, "replays", f"rt-{harness}-{variant}-{os.getpid()}.json")
+    bpath = os.path.join(VERIF, "replays", f"rt-{harness}-{variant.replace(chr(47), chr(95))}-{os.getpid()}.json")
     with open(bpath, "w") as f:
         json.dump(reps, f)
     env = dict(os.environ, NASIM_TREE=tree, PYTHONPATH=tree)
@@ -366,7 +379,13 @@ def run_fallback(repo, c, variant, cfg, tree, samples, seed=0):
     out = {"samples": samples, "valid": 0, "failures": []}
     seen = set()
     for rep, act in zip(reps, actuals):
-        failed, skip = evaluate(repo, c, variant, cfg, harness, rep, act)
+        if harness == "env_step":
+            # environment-level clauses are evaluated natively by the oracle of replay/dyn_replay.py
+            failed = list(act.get("clause_failures", [])) + ([f"raises:{act['exception']}"] if act.get("exception") else [])
+            failed = [f.split(":")[0] for f in failed]
+            skip = None
+        else:
+            failed, skip = evaluate(repo, c, variant, cfg, harness, rep, act)
         if failed is None:
             continue
         out["valid"] += 1
